@@ -37,9 +37,12 @@ from .constants import DIAMETER_AGENT_CLIENT_MODE
 from .constants import DIAMETER_AGENT_SERVER_MODE
 from .constants import DIAMETER_AGENT_TRANSPORT_TYPE_TCP
 from .constants import DIAMETER_AGENT_TRANSPORT_TYPE_SCTP
+from .exceptions import AVPAttributeValueError
 from .exceptions import AVPParsingError
+from .exceptions import DataTypeError
 from .exceptions import DiameterApplicationError
 from .exceptions import DiameterAssociationError
+from .exceptions import DiameterMessageError
 from .messages import DiameterAnswer
 from .messages import DiameterRequest
 from .proxy import BaseMessages
@@ -169,6 +172,7 @@ class DiameterAssociation(object):
             self.lock.acquire()
 
             if self.transport is None:
+                self.lock.release()
                 break
 
             data_stream = copy.copy(self.transport._recv_data_stream)
@@ -186,12 +190,14 @@ class DiameterAssociation(object):
                 
                 diameter_conn_logger.debug(f"Found {len(msgs)} Diameter "\
                                            f"Message(s).")
-            except AVPParsingError:
-                diameter_conn_logger.exception(f"AVPParsingError has "\
+            except (AVPParsingError, AVPAttributeValueError, DataTypeError,
+                    DiameterMessageError):
+                diameter_conn_logger.exception(f"Parsing error has "\
                                                f"been raised due stream: "\
-                                               f"{self.transport._recv_data_stream.hex()}")
+                                               f"{data_stream.hex()}")
 
-            self.lock.release()
+            finally:
+                self.lock.release()
 
 
     def put_message_into_send_queue(self, msg: Type[DiameterMessage]) -> None:
